@@ -236,14 +236,142 @@ func AfterFunc(d time.Duration, f func()) *Timer {
 	return t
 }
 
-// Tick / NewTicker are not modelled: fail loudly rather than explore wrongly.
-func Tick(d time.Duration) <-chan time.Time { panic("vsched: time.Tick is not modelled") }
+// Ticker mirrors time.Ticker: C has one buffer slot, the runtime does a non-blocking send every d and drops
+// the tick when the previous one has not been read. The ticking is a daemon model thread. A ticker nobody
+// reads does not keep the virtual clock running: while its channel still holds an unread tick it is
+// dormant (further ticks would be dropped and change nothing), and it re-arms when the channel is drained.
+type Ticker struct {
+	C  <-chan time.Time
+	rt *time.Ticker
 
-type Ticker struct{ C <-chan time.Time }
+	c       chan time.Time
+	d       time.Duration
+	gen     int
+	stopped bool
+	op      *pend
+	th      *Thread
+	hb      hbObj
+}
 
-func NewTicker(d time.Duration) *Ticker { panic("vsched: time.NewTicker is not modelled") }
-func (t *Ticker) Stop()                 {}
-func (t *Ticker) Reset(d time.Duration) {}
+func Tick(d time.Duration) <-chan time.Time {
+	if d <= 0 {
+		return nil
+	}
+	return NewTicker(d).C
+}
+
+func NewTicker(d time.Duration) *Ticker {
+	if d <= 0 {
+		panic("non-positive interval for NewTicker")
+	}
+	x := active()
+	if x == nil {
+		rt := time.NewTicker(d)
+		return &Ticker{C: rt.C, rt: rt}
+	}
+	c := make(chan time.Time, 1)
+	t := &Ticker{C: c, c: c, d: d}
+	x.chanOf(chanKey(c), 1)
+	x.point(&pend{desc: "NewTicker"})
+	t.arm(x)
+	return t
+}
+
+func (t *Ticker) arm(x *Exec) {
+	t.gen++
+	g := t.gen
+	t.stopped = false
+	next := x.clock + int64(t.d)
+	x.hbEvent(&t.hb, kTimer, uint64(next)*4+1)
+	p := x.cur
+	p.spawns++
+	cs := x.chanOf(chanKey(t.c), 1)
+	th := x.newThread(fmt.Sprintf("%s.%d", p.Name, p.spawns), false, func() {
+		for {
+			if t.gen != g || t.stopped {
+				return
+			}
+			op := &pend{desc: "ticker due " + time.Duration(next).String(), due: next}
+			op.ready = func() bool {
+				if t.gen != g || t.stopped {
+					op.due = 0
+					return false
+				}
+				if len(cs.buf) > 0 { // dormant: the previous tick has not been read
+					op.due = 0
+					return false
+				}
+				if op.due == 0 { // drained: the next tick is the first multiple of d after now
+					for next <= x.clock {
+						next += int64(t.d)
+					}
+					op.due = next
+				}
+				return x.clock >= op.due
+			}
+			t.op = op
+			x.point(op)
+			t.op = nil
+			if t.gen != g || t.stopped {
+				return
+			}
+			x.hbEvent(&t.hb, kTimer, 2)
+			if cs.canSend() {
+				v := timeBase.Add(time.Duration(x.clock))
+				x.doSend(cs, &v, copyT[time.Time])
+				x.tracef("ticker fired")
+			}
+			next += int64(t.d)
+		}
+	})
+	th.daemon = true
+	th.op.due = next
+	t.th = th
+}
+
+func (t *Ticker) halt() {
+	t.stopped = true
+	if t.op != nil {
+		t.op.due = 0
+	}
+	if t.th != nil && t.th.op != nil {
+		t.th.op.due = 0
+	}
+}
+
+// Stop turns the ticker off; a tick already sent stays in C (which is not closed).
+func (t *Ticker) Stop() {
+	if t.rt != nil {
+		t.rt.Stop()
+		return
+	}
+	x := active()
+	if x == nil {
+		return
+	}
+	x.point(&pend{desc: "Ticker.Stop"})
+	t.halt()
+	x.hbEvent(&t.hb, kTimer, 4)
+}
+
+// Reset stops the ticker and restarts it with period d.
+func (t *Ticker) Reset(d time.Duration) {
+	if d <= 0 {
+		panic("non-positive interval for Ticker.Reset")
+	}
+	if t.rt != nil {
+		t.rt.Reset(d)
+		return
+	}
+	x := active()
+	if x == nil {
+		return
+	}
+	x.point(&pend{desc: "Ticker.Reset"})
+	t.halt()
+	t.d = d
+	t.arm(x)
+}
 
 // Clock returns the virtual clock in ns (oracles).
 func Clock() int64 {
